@@ -1,5 +1,5 @@
 // ---- src/repr/var_label.rs: VarLabel ----
-#[derive(Clone, Copy, PartialEq, Eq, Structural, Debug)]
+#[derive(Clone, Copy, PartialEq, Eq, Structural, Debug, PartialOrd, Ord)]
 //%% extract src/repr/var_label.rs :: - :: struct VarLabel
 //%% @pub
 //%% end
